@@ -3,7 +3,9 @@ BaseChannelArgs defaults (search depth, return char, base prompt pattern), the c
 CONSTRUCTED driver of each kind hands to its channel (Generic, Network over the IOS-XE table, the five
 core platforms; sync and asyncio must agree), the flags _get_prompt_pattern compiles it with,
 ANSI_ESCAPE_PATTERN and ANSI_ESCAPE_PARTIAL_PATTERN, which of the two known shapes the escape-sequence
-carry-over of read() has (AST), and the unit-level behaviour of _process_read_buf, _process_output,
+carry-over of read() has (AST), that every use of the prompt pattern in the channel classes compiles the pattern TEXT of
+_base_channel_args at that use through the static, text-keyed _get_prompt_pattern (AST; no compiled pattern kept on the channel)
+and that the helpers follow a changed text (probe), and the unit-level behaviour of _process_read_buf, _process_output,
 _get_prompt_pattern and of Channel.read / AsyncChannel.read themselves (one transport chunk in, what read() returns
 and what it carries over out) observed by calling them on probe inputs (compiled as obligations over the model)."""
 import ast
@@ -101,6 +103,116 @@ def _probes():
         and p_lit.search(b"abc [y/n]?") is None and p_lit.search(b"A.C [Y/N]?") is None,
     }
     return prb, po, facts
+
+
+PROMPT_USERS = {"BaseChannel": ["_process_output", "_interaction_complete", "_pre_channel_authenticate_ssh", "_pre_channel_authenticate_telnet"],
+                "Channel": ["_read_until_prompt", "_read_until_explicit_prompt", "get_prompt"],
+                "AsyncChannel": ["_read_until_prompt", "_read_until_explicit_prompt", "get_prompt"]}
+
+
+def _is_self_attr(node, *path):
+    """node is self.<path[0]>.<path[1]>..."""
+    for name in reversed(path):
+        if not isinstance(node, ast.Attribute) or node.attr != name:
+            return False
+        node = node.value
+    return isinstance(node, ast.Name) and node.id == "self"
+
+
+def _pattern_reads():
+    """AST tie: the channel reads the prompt pattern TEXT `self._base_channel_args.comms_prompt_pattern` at each use and compiles
+    it through `_get_prompt_pattern`, a static function of its text arguments (cached by them, so a changed text is a cache miss).
+    No channel attribute holds a compiled (or copied) prompt pattern.  Returns the number of uses seen; raises otherwise."""
+    from scrapli.channel import async_channel, base_channel, sync_channel
+    uses = 0
+    for mod, cname in ((base_channel, "BaseChannel"), (sync_channel, "Channel"), (async_channel, "AsyncChannel")):
+        tree = ast.parse(inspect.getsource(mod))
+        cdef = [n for n in tree.body if isinstance(n, ast.ClassDef) and n.name == cname]
+        if len(cdef) != 1:
+            raise ValueError("class %s not found" % cname)
+        funcs = {f.name: f for f in cdef[0].body if isinstance(f, (ast.FunctionDef, ast.AsyncFunctionDef))}
+        for fname, f in funcs.items():
+            parent = {}
+            for n in ast.walk(f):
+                for c in ast.iter_child_nodes(n):
+                    parent[c] = n
+            ok_locals = set()
+            for n in ast.walk(f):
+                # anything named *prompt_pattern* on self other than the static compiler is a second home of the pattern
+                if isinstance(n, ast.Attribute) and isinstance(n.value, ast.Name) and n.value.id == "self" and \
+                        "prompt_pattern" in n.attr and n.attr != "_get_prompt_pattern":
+                    raise ValueError("%s.%s uses self.%s: the prompt pattern has a second home on the channel" % (cname, fname, n.attr))
+                if isinstance(n, ast.Attribute) and n.attr == "comms_prompt_pattern":
+                    if not _is_self_attr(n, "_base_channel_args", "comms_prompt_pattern"):
+                        raise ValueError("%s.%s: comms_prompt_pattern read from somewhere else than self._base_channel_args" % (cname, fname))
+                    if not isinstance(n.ctx, ast.Load):
+                        raise ValueError("%s.%s writes comms_prompt_pattern" % (cname, fname))
+                    up = parent.get(n)
+                    if isinstance(up, ast.keyword) and up.arg == "class_pattern":
+                        continue
+                    if isinstance(up, ast.Assign) and len(up.targets) == 1 and isinstance(up.targets[0], ast.Name):
+                        ok_locals.add(up.targets[0].id)      # class_pattern = self._base_channel_args.comms_prompt_pattern
+                        continue
+                    raise ValueError("%s.%s: the pattern text is used otherwise than as class_pattern of _get_prompt_pattern" % (cname, fname))
+            for n in ast.walk(f):
+                if isinstance(n, ast.Name) and n.id in ok_locals and isinstance(n.ctx, ast.Load):
+                    up = parent.get(n)
+                    if not (isinstance(up, ast.keyword) and up.arg == "class_pattern"):
+                        raise ValueError("%s.%s: local copy of the pattern text used otherwise than as class_pattern" % (cname, fname))
+                if isinstance(n, ast.Call) and isinstance(n.func, ast.Attribute) and n.func.attr == "_get_prompt_pattern":
+                    if not _is_self_attr(n.func, "_get_prompt_pattern") or n.args:
+                        raise ValueError("%s.%s: unexpected call of _get_prompt_pattern" % (cname, fname))
+                    kws = {k.arg: k.value for k in n.keywords}
+                    cp = kws.get("class_pattern")
+                    if set(kws) - {"class_pattern", "pattern"} or not (
+                            _is_self_attr(cp, "_base_channel_args", "comms_prompt_pattern") or (isinstance(cp, ast.Name) and cp.id in ok_locals)):
+                        raise ValueError("%s.%s: _get_prompt_pattern not called with the pattern text of _base_channel_args" % (cname, fname))
+                    # the compiled object lives in a local of this call of the function (or is used in place), never on self
+                    up = parent.get(n)
+                    while isinstance(up, ast.keyword) or (isinstance(up, ast.Call) and up is not n):
+                        up = parent.get(up)
+                    if isinstance(up, (ast.Assign, ast.AnnAssign)):
+                        tg = up.targets if isinstance(up, ast.Assign) else [up.target]
+                        if not all(isinstance(t, ast.Name) for t in tg):
+                            raise ValueError("%s.%s keeps a compiled prompt pattern outside a local variable" % (cname, fname))
+                    uses += 1
+        for fname in PROMPT_USERS[cname]:
+            f = funcs.get(fname)
+            if f is None or not any(isinstance(n, ast.Call) and isinstance(n.func, ast.Attribute) and n.func.attr == "_get_prompt_pattern"
+                                    for n in ast.walk(f)):
+                raise ValueError("%s.%s does not compile the pattern text at its use" % (cname, fname))
+        if cname == "BaseChannel":
+            g = funcs.get("_get_prompt_pattern")
+            decos = sorted(ast.unparse(d).split("(")[0] for d in g.decorator_list) if g is not None else []
+            if decos != ["lru_cache", "staticmethod"]:
+                raise ValueError("_get_prompt_pattern is not a cached static method: %r" % decos)
+            if [a.arg for a in g.args.args] != ["class_pattern", "pattern"] or g.args.vararg or g.args.kwarg or g.args.kwonlyargs:
+                raise ValueError("_get_prompt_pattern: unexpected parameters")
+            loaded = {n.id for n in ast.walk(g) if isinstance(n, ast.Name)} - {"Optional", "Pattern", "bytes", "str"}
+            if not loaded <= {"class_pattern", "pattern", "bytes_pattern", "re", "lru_cache", "staticmethod"}:
+                raise ValueError("_get_prompt_pattern depends on more than its arguments: %r" % sorted(loaded))
+    return uses
+
+
+def _pattern_follow_probe():
+    """behaviour: the helpers follow the pattern text after it is changed on a constructed channel whose pattern was already used
+    (driver attribute, then the channel's arguments), sync and asyncio"""
+    ok = True
+    t = b"\nPort counters\nRX>\nrouter1#"
+    for sync in (True, False):
+        d = _driver("generic", sync)
+        ch = d.channel
+        r1 = ch._process_output(buf=t, strip_prompt=True)
+        p1 = ch._pre_channel_authenticate_ssh()[2].pattern
+        d.comms_prompt_pattern = r"^router1#\s*$"
+        r2 = ch._process_output(buf=t, strip_prompt=True)
+        p2 = ch._pre_channel_authenticate_ssh()[2].pattern
+        ch._base_channel_args.comms_prompt_pattern = r"^\S{0,48}[#>]\s*$"
+        r3 = ch._process_output(buf=t, strip_prompt=True)
+        p3 = ch._pre_channel_authenticate_telnet()[2].pattern
+        ok = ok and (r1, r2, r3) == (b"Port counters", b"Port counters\nRX>", b"Port counters") and \
+            p2 == rb"^router1#\s*$" and p3 == rb"^\S{0,48}[#>]\s*$" and p1 not in (p2, p3)
+    return ok
 
 
 class _ChunkTransport:
@@ -250,6 +362,8 @@ def generate(outdir):
     lines.append("Definition gen_hold_scan : bool := %s." % ("true" if scan else "false"))
     info["hold_scan"] = scan
     prb, po, facts = _probes()
+    info["pattern_text_uses"] = _pattern_reads()
+    facts["pattern_read_at_each_use"] = _pattern_follow_probe()
     lines.append("(* (depth, buffer, _process_read_buf(buffer)) observed on the real helper *)")
     lines.append("Definition gen_prb_probes : list (nat * bytes * bytes) := [\n  %s]." % ";\n  ".join(
         "(%d%%nat, %s, %s)" % (dd, _cb(b), _cb(r)) for dd, b, r in prb))
